@@ -75,19 +75,67 @@ pub struct Run {
     pub polls: u64,
 }
 
-pub fn run_search(board: &Board, hist: &ThreeFold, timeout: &CountingTimeout, positional: bool) -> Run {
-    verif::start();
-    let mut engine = Engine::default();
-    engine.positional = positional;
-    let res = std::panic::catch_unwind(std::panic::AssertUnwindSafe(|| engine.search(board, hist, timeout)));
-    let events = verif::take();
-    match res {
-        Ok(r) => Run { events, result: Some(r), terminated: true, panicked: false, polls: timeout.polls.get() },
-        Err(p) => {
-            let nonterm = p.downcast_ref::<NonTermination>().is_some();
-            Run { events, result: None, terminated: !nonterm, panicked: !nonterm, polls: timeout.polls.get() }
+/// which limit to give the engine (constructed inside the search thread: it is not Send)
+#[derive(Clone, Copy)]
+pub enum Limit {
+    At(u64),
+    AfterCommits(u32, u64),
+}
+
+/// wall-clock bound for one search: only used to recognise non-termination (searches in this
+/// harness take micro- to milliseconds; a search that does not return within this bound and does
+/// not even poll its limit any more is reported as non-terminating)
+const SEARCH_DEADLINE_S: u64 = 25;
+
+/// run one search on its own thread; `hist` are the positions of the repetition history
+pub fn run_search(board: &Board, hist: &[Board], limit: Limit, positional: bool) -> Run {
+    let board = *board;
+    let hist: Vec<Board> = hist.to_vec();
+    let (tx, rx) = std::sync::mpsc::channel::<Run>();
+    let op = cur_op();
+    std::thread::Builder::new()
+        .stack_size(64 << 20)
+        .spawn(move || {
+            set_op(&op);
+            let mut tf = ThreeFold::new();
+            for b in &hist {
+                tf.add(*b);
+            }
+            let timeout = match limit {
+                Limit::At(k) => CountingTimeout::at(k),
+                Limit::AfterCommits(n, cap) => CountingTimeout::after_commits(n, cap),
+            };
+            verif::start();
+            let mut engine = Engine::default();
+            engine.positional = positional;
+            let res = std::panic::catch_unwind(std::panic::AssertUnwindSafe(|| engine.search(&board, &tf, &timeout)));
+            let events = verif::take();
+            let run = match res {
+                Ok(r) => Run { events, result: Some(r), terminated: true, panicked: false, polls: timeout.polls.get() },
+                Err(p) => {
+                    let nonterm = p.downcast_ref::<NonTermination>().is_some();
+                    Run { events, result: None, terminated: !nonterm, panicked: !nonterm, polls: timeout.polls.get() }
+                }
+            };
+            let _ = tx.send(run);
+        })
+        .expect("spawn search thread");
+    match rx.recv_timeout(std::time::Duration::from_secs(SEARCH_DEADLINE_S)) {
+        Ok(run) => run,
+        Err(_) => {
+            // the thread is abandoned (it cannot be stopped); the caller ends the recording soon
+            HUNG.with(|h| h.set(true));
+            Run { events: vec![], result: None, terminated: false, panicked: false, polls: 0 }
         }
     }
+}
+
+thread_local! {
+    pub static HUNG: Cell<bool> = const { Cell::new(false) };
+}
+
+pub fn hung() -> bool {
+    HUNG.with(|h| h.get())
 }
 
 /// serialise a run: hook events with polls compressed (polls deep in the tree are dropped unless
@@ -192,14 +240,6 @@ fn search_positions(roots: &Value, tags: &str, seed: u64, per_root: u64, plies: 
     v
 }
 
-fn three_fold_of(hist: &[Board]) -> ThreeFold {
-    let mut t = ThreeFold::new();
-    for b in hist {
-        t.add(*b);
-    }
-    t
-}
-
 pub fn record_search(opts: &Opts) -> i32 {
     let roots = read_json_file(&opts.str("roots", "/verif/spec/roots.json"));
     let seed = opts.num("seed", 1);
@@ -219,17 +259,23 @@ pub fn record_search(opts: &Opts) -> i32 {
     let mut nonterm = 0u64;
     let per_pos = (budget / (mine.len().max(1) as u64)).max(300);
     for (board, hist) in mine {
-        if events >= budget {
+        if events >= budget || hung() {
             break;
         }
         positions += 1;
         let stop_at = events + per_pos;
-        let tf = if rng.gen_bool(0.5) { three_fold_of(hist) } else { ThreeFold::new() };
+        let tf: Vec<Board> = if rng.gen_bool(0.5) { hist.clone() } else { vec![] };
         op!("record-search probe board={board}");
         // how many polls do `commits_target` passes take?
         let cap = opts.num("cap", 200_000);
-        let probe_t = CountingTimeout::after_commits(commits_target, cap);
-        let probe = run_search(board, &tf, &probe_t, false);
+        let probe = run_search(board, &tf, Limit::AfterCommits(commits_target, cap), false);
+        if !probe.terminated {
+            // the probe itself does not return: record it (k = "after N commits") and stop recording
+            events += write_run(&mut out, board, false, &probe, json!({"k": "probe", "hist": hist.len()}));
+            runs += 1;
+            nonterm += 1;
+            break;
+        }
         let total = probe.polls.min(cap);
         let ks: Vec<u64> = if mode == "allk" && total <= kmax && total * 12 <= per_pos * 4 {
             (0..=total + 1).collect()
@@ -248,12 +294,14 @@ pub fn record_search(opts: &Opts) -> i32 {
         let mut first = true;
         for k in ks {
             op!("record-search board={board} k={k}");
-            let t = CountingTimeout::at(k);
-            let run = run_search(board, &tf, &t, false);
+            let run = run_search(board, &tf, Limit::At(k), false);
             if !run.terminated {
                 nonterm += 1;
             }
             events += write_run(&mut out, board, !first, &run, json!({"k": k, "hist": hist.len()}));
+            if hung() {
+                break;
+            }
             first = false;
             runs += 1;
             if events >= stop_at {
@@ -284,6 +332,9 @@ pub fn replay_search(opts: &Opts) -> i32 {
     for line in stdin.lock().lines() {
         let Ok(line) = line else { break };
         let Some(rec) = unwrap_tlc_line(&line, "SPOS") else { continue };
+        if hung() {
+            break;
+        }
         lines += 1;
         let fen = rec["fen"].as_str().unwrap_or("");
         let Ok(board) = fen.parse::<Board>() else {
@@ -293,11 +344,10 @@ pub fn replay_search(opts: &Opts) -> i32 {
         if rec["mates"].as_array().map_or(false, |a| !a.is_empty()) {
             with_mate += 1;
         }
-        let tf = ThreeFold::new();
+        let tf: Vec<Board> = vec![];
         if !do_mirror {
             op!("replay-search first-pass fen={fen}");
-            let t = CountingTimeout::after_commits(1, 500_000);
-            let run = run_search(&board, &tf, &t, false);
+            let run = run_search(&board, &tf, Limit::AfterCommits(1, 500_000), false);
             events += write_run(&mut out, &board, false, &run, json!({"mode": "first-pass"}));
             if samples.len() < 2 && with_mate > 0 && samples.len() < with_mate as usize {
                 samples.push(json!({"fen": fen, "mates": rec["mates"], "result": run.result.map(|(m, s)| json!([m.map(code), score_json(s)]))}));
@@ -306,8 +356,8 @@ pub fn replay_search(opts: &Opts) -> i32 {
             let mfen = rec["mirror"].as_str().unwrap_or("");
             let Ok(mboard) = mfen.parse::<Board>() else { continue };
             op!("replay-search mirror fen={fen}");
-            let ra = run_search(&board, &tf, &CountingTimeout::at(polls), false);
-            let rb = run_search(&mboard, &tf, &CountingTimeout::at(polls), false);
+            let ra = run_search(&board, &tf, Limit::At(polls), false);
+            let rb = run_search(&mboard, &tf, Limit::At(polls), false);
             events += write_run(&mut out, &board, false, &ra, json!({"mode": "mirror-a", "polls": polls}));
             events += write_run(&mut out, &mboard, false, &rb, json!({"mode": "mirror-b", "polls": polls}));
             let ca = commits_of(&ra);
@@ -387,9 +437,11 @@ pub fn stress_search(opts: &Opts) -> i32 {
         }
         let fen = r["fen"].as_str().unwrap();
         let Ok(board) = fen.parse::<Board>() else { continue };
+        if hung() {
+            break;
+        }
         op!("stress-search {fen} polls={polls}");
-        let t = CountingTimeout::at(polls);
-        let run = run_search(&board, &ThreeFold::new(), &t, false);
+        let run = run_search(&board, &[], Limit::At(polls), false);
         let n = run.events.iter().filter(|e| matches!(e, Event::Commit { .. })).count() as u64;
         passes += n;
         runs += 1;
